@@ -134,6 +134,10 @@ def main_check(prop_id, tier):
     proof_problems = []
 
     # 1. translate --------------------------------------------------------------------------------
+    # (translate, build, audit and the driver snapshot happen under ONE lock so that no concurrent check can
+    #  regenerate Gen/ from another tree in between)
+    _lk = lean.lake_lock()
+    _lk.__enter__()
     tr = lean.translate(None)
     log["translator"] = tr
     for name in getattr(mod, "GEN", []):
@@ -184,6 +188,10 @@ def main_check(prop_id, tier):
         except RuntimeError as e:
             log["audit"] = {"error": str(e)[-3000:]}
             proof_problems.append("audit-failed")
+
+    if driver_ok:
+        lean.snapshot_driver()
+    _lk.__exit__(None, None, None)
 
     # 3. correspond + oracle ------------------------------------------------------------------------
     run = Runner(mod, tier, seed)
@@ -287,6 +295,8 @@ def main_check(prop_id, tier):
     os.makedirs(os.path.join(VERIF, "evidence"), exist_ok=True)
     with open(os.path.join(VERIF, "evidence", f"{prop_id}.json"), "w", encoding="utf-8") as f:
         json.dump(ev, f, indent=1, default=str)
+
+    lean.drop_driver_snapshot()
 
     # 6. report -------------------------------------------------------------------------------------
     for e in findings.known_for(prop_id):
